@@ -4,41 +4,80 @@ pub use methods::dispatch as pow;
 
 #[dispatch]
 mod methods {
-    use crate::CelValue;
+    use self::internal::{float_exponent, int_exponent, overflow, uint_exponent};
+    use crate::{CelResult, CelValue};
 
-    fn pow(n1: i64, n2: i64) -> i64 {
-        n1.pow(n2 as u32)
+    fn pow(n1: i64, n2: i64) -> CelResult<i64> {
+        n1.checked_pow(int_exponent(n2)?).ok_or_else(overflow)
     }
 
-    fn pow(n1: i64, n2: u64) -> i64 {
-        n1.pow(n2 as u32)
+    fn pow(n1: i64, n2: u64) -> CelResult<i64> {
+        n1.checked_pow(uint_exponent(n2)).ok_or_else(overflow)
     }
 
-    fn pow(n1: i64, n2: f64) -> i64 {
-        n1.pow(n2 as u32)
+    fn pow(n1: i64, n2: f64) -> CelResult<i64> {
+        n1.checked_pow(float_exponent(n2)?).ok_or_else(overflow)
     }
 
-    fn pow(n1: u64, n2: i64) -> u64 {
-        n1.pow(n2 as u32)
+    fn pow(n1: u64, n2: i64) -> CelResult<u64> {
+        n1.checked_pow(int_exponent(n2)?).ok_or_else(overflow)
     }
 
-    fn pow(n1: u64, n2: u64) -> u64 {
-        n1.pow(n2 as u32)
+    fn pow(n1: u64, n2: u64) -> CelResult<u64> {
+        n1.checked_pow(uint_exponent(n2)).ok_or_else(overflow)
     }
 
-    fn pow(n1: u64, n2: f64) -> u64 {
-        n1.pow(n2 as u32)
+    fn pow(n1: u64, n2: f64) -> CelResult<u64> {
+        n1.checked_pow(float_exponent(n2)?).ok_or_else(overflow)
     }
 
     fn pow(n1: f64, n2: i64) -> f64 {
-        n1.powi(n2 as i32)
+        n1.powf(n2 as f64)
     }
 
     fn pow(n1: f64, n2: u64) -> f64 {
-        n1.powi(n2 as i32)
+        n1.powf(n2 as f64)
     }
 
     fn pow(n1: f64, n2: f64) -> f64 {
         n1.powf(n2)
+    }
+
+    mod internal {
+        use crate::{CelError, CelResult};
+
+        pub fn overflow() -> CelError {
+            CelError::value("pow() result does not fit the integer type")
+        }
+
+        /// exponent of an integer power: a non-negative whole number
+        pub fn int_exponent(n2: i64) -> CelResult<u32> {
+            if n2 < 0 {
+                return Err(CelError::value(
+                    "pow() of an integer requires a non-negative exponent",
+                ));
+            }
+            // anything above u32::MAX overflows unless the base is -1, 0 or 1,
+            // for which only the parity of the exponent matters
+            Ok(uint_exponent(n2 as u64))
+        }
+
+        pub fn float_exponent(n2: f64) -> CelResult<u32> {
+            if n2.is_nan() || n2 < 0.0 || n2.fract() != 0.0 {
+                return Err(CelError::value(
+                    "pow() of an integer requires a non-negative whole exponent",
+                ));
+            }
+            if n2 <= u32::MAX as f64 {
+                Ok(n2 as u32)
+            } else {
+                // every double this large is even
+                Ok(u32::MAX - 1)
+            }
+        }
+
+        pub fn uint_exponent(n2: u64) -> u32 {
+            u32::try_from(n2).unwrap_or(u32::MAX - 1 + (n2 % 2) as u32)
+        }
     }
 }
